@@ -58,6 +58,8 @@ type Picker interface {
 	AdvanceEarly() bool
 	// Spawned is called when a goroutine is created.
 	Spawned(g *G)
+	// ChooseBranch picks among n ready cases of a select statement (n>=2).
+	ChooseBranch(n int) int
 }
 
 type timer struct {
@@ -106,6 +108,7 @@ type Sched struct {
 	MaxRunnable  int
 	Contended    int
 	SelectWaits  int
+	SelectRaces  int
 	SpawnedCount int
 
 	// StepHook, when set, runs at every scheduling point with the baton held
